@@ -163,6 +163,8 @@ fn test_stream(case: &StreamCase) -> TestResult {
 const TEXT_POOL: &[char] = &[
     'a', 'Z', '1', '(', '.', ',', '-', '/', '%', 'ｱ', 'ｶ', 'ﾞ', '｡', '､', '～', '－', '―', '–', '─', 'あ', 'ア', '火', 'Ａ', '１',
     '\r', '\n', '𠀋', '😀', '\u{200d}', '👨', '👩', '🇯', '🇵', '\u{3099}', ' ', '"', '\'',
+    // first / last scalar values of the UTF-8 lead-byte classes, Thai and Devanagari (lead 0xE0)
+    '\u{7f}', '\u{80}', '\u{7ff}', '\u{800}', 'ส', 'न', '\u{fff}', '\u{1000}', '\u{d7ff}', '\u{e000}', '\u{ffff}', '\u{10000}', '\u{10ffff}',
 ];
 
 /// The same text with some characters in the other width (ASCII <-> full-width forms).
